@@ -107,7 +107,9 @@ V = {
         ensures=[('heap', ['C01', 'C02', 'C04', 'C05'], 'sweep_one_rel_heap(old(self)@, final(self)@, r)'),
                  ('list', ['C01', 'C04', 'C05', 'C08', 'C11'], 'sweep_one_rel_list(old(self)@, final(self)@, r)'),
                  ('metrics', ['C09', 'C10'], 'sweep_one_rel_metrics(old(self)@, final(self)@)'),
-                 ('frame', ['C03', 'C08'], 'sweep_one_rel_frame(old(self)@, final(self)@)')],
+                 ('frame', ['C03', 'C08'], 'sweep_one_rel_frame(old(self)@, final(self)@)'),
+                 # the conjunction of the four clauses, as the single term the driver's preservation lemma is triggered on
+                 ('rel', ['C01', 'C04', 'C05'], 'sweep_one_rel(old(self)@, final(self)@, r)')],
         body_serves=['C01', 'C04', 'C10'],
     ),
 }
@@ -140,3 +142,75 @@ V['metrics.finish_cycle'] = dict(requires=[], ensures=[
     ('counters', ['C09', 'C10'], 'final(self)@ == (MV { allocated: 0, dropped: 0, freed: 0, marked: 0, traced: 0, remembered: 0, fl: final(self)@.fl, ..old(self)@ })'),
     ('floats', ['C09'], 'finish_floats(old(self)@, final(self)@.fl, reset_debt) && zero_work_factors(final(self)@.fl) == zero_work_factors(old(self)@.fl)')],
     body_serves=['C09', 'C10'])
+
+# ------------------------------------------------------------------ the driver
+_DC_INV = '''inv(self@), quiescent(self@),
+                run_until == RunUntil::PayDebt ==> debt_pos(old(self)@.m),
+                old(self)@.hist.len() <= self@.hist.len(), self@.hist.subrange(0, old(self)@.hist.len() as int) =~= old(self)@.hist,
+                zero_work_factors(self@.m.fl) == zero_work_factors(old(self)@.m.fl),
+                (stop == Stop::FullyMarked && old(self)@.phase != Phase::Sweep) ==> self@.phase != Phase::Sweep,
+                (stop_rank(stop) <= 1 && old(self)@.phase == Phase::Sweep) ==> same(old(self)@, self@),
+                stop == Stop::FinishCycle ==> forall|i: int| old(self)@.hist.len() <= i < self@.hist.len() ==> self@.hist[i] != Phase::Sleep,
+                (run_until == RunUntil::PayDebt && zero_work_factors(old(self)@.m.fl) && debt_pos(old(self)@.m))
+                    ==> debt_pos(self@.m) || (self@.phase == Phase::Sweep && self@.sweep is None),'''
+_DC_LOOP_ENS = '''inv(self@), quiescent(self@),
+                old(self)@.hist.len() <= self@.hist.len(), self@.hist.subrange(0, old(self)@.hist.len() as int) =~= old(self)@.hist,
+                stop == Stop::FinishCycle ==> forall|i: int| old(self)@.hist.len() <= i < self@.hist.len() - 1 ==> self@.hist[i] != Phase::Sleep,
+                (stop_rank(stop) <= 1 && old(self)@.phase == Phase::Sweep) ==> same(old(self)@, self@),
+                (stop == Stop::FullyMarked && old(self)@.phase != Phase::Sweep) ==> self@.phase != Phase::Sweep,
+                (run_until == RunUntil::Stop && stop == Stop::FullyMarked && old(self)@.phase != Phase::Sweep) ==> self@.phase == Phase::Mark && !gray_remaining_spec(self@),
+                (run_until == RunUntil::Stop && stop == Stop::AtSweep && old(self)@.phase != Phase::Sweep) ==> self@.phase == Phase::Sweep,
+                (run_until == RunUntil::Stop && stop == Stop::FinishCycle) ==> self@.phase == Phase::Sleep,
+                (run_until == RunUntil::PayDebt && stop == Stop::Full) ==> !debt_pos(self@.m),
+                (run_until == RunUntil::PayDebt && stop == Stop::FinishCycle) ==> !debt_pos(self@.m) || self@.phase == Phase::Sleep,
+                (run_until == RunUntil::PayDebt && stop == Stop::FullyMarked) ==> !debt_pos(self@.m) || self@.phase == Phase::Sweep
+                    || (self@.phase == Phase::Mark && !gray_remaining_spec(self@)),
+                (run_until == RunUntil::PayDebt && stop_rank(stop) >= 2 && zero_work_factors(old(self)@.m.fl) && debt_pos(old(self)@.m))
+                    ==> self@.phase == Phase::Sleep,'''
+V['context.do_collection'] = dict(
+    attrs=['#[verifier::exec_allows_no_decreases_clause]'],
+    requires=['inv(old(self)@)', 'quiescent(old(self)@)'],
+    ensures=[
+        ('inv', ['C01', 'C02', 'C04', 'C05', 'C07', 'C11', 'C20'], 'inv(final(self)@) && quiescent(final(self)@)'),
+        # C08: mark_debt / finish_marking do nothing while Sweeping and never leave Marked for Sweeping
+        ('noop_while_sweeping', ['C08'], '(stop_rank(stop) <= 1 && old(self)@.phase == Phase::Sweep) ==> same(old(self)@, final(self)@)'),
+        ('never_leaves_marked', ['C08'], '(stop == Stop::FullyMarked && old(self)@.phase != Phase::Sweep) ==> final(self)@.phase != Phase::Sweep'),
+        ('finish_marking', ['C07', 'C08'], '(run_until == RunUntil::Stop && stop == Stop::FullyMarked && old(self)@.phase != Phase::Sweep) ==> final(self)@.phase == Phase::Mark && !gray_remaining_spec(final(self)@)'),
+        ('start_sweeping', ['C08'], '(run_until == RunUntil::Stop && stop == Stop::AtSweep && old(self)@.phase != Phase::Sweep) ==> final(self)@.phase == Phase::Sweep'),
+        ('finish_cycle', ['C02', 'C08'], '(run_until == RunUntil::Stop && stop == Stop::FinishCycle) ==> final(self)@.phase == Phase::Sleep'),
+        # C08: history is only extended; with FinishCycle, Sleep can only be the last phase entered in this call
+        ('history', ['C08'], 'old(self)@.hist.len() <= final(self)@.hist.len() && final(self)@.hist.subrange(0, old(self)@.hist.len() as int) =~= old(self)@.hist'),
+        ('cycle_stops_at_sleep', ['C08'], 'stop == Stop::FinishCycle ==> forall|i: int| old(self)@.hist.len() <= i < final(self)@.hist.len() - 1 ==> final(self)@.hist[i] != Phase::Sleep'),
+        # C09(a): debt-driven calls
+        ('collect_debt_pays', ['C09'], '(run_until == RunUntil::PayDebt && stop == Stop::Full) ==> !debt_pos(final(self)@.m)'),
+        ('cycle_debt_pays', ['C09'], '(run_until == RunUntil::PayDebt && stop == Stop::FinishCycle) ==> !debt_pos(final(self)@.m) || final(self)@.phase == Phase::Sleep'),
+        ('mark_debt_pays', ['C09'], '(run_until == RunUntil::PayDebt && stop == Stop::FullyMarked) ==> !debt_pos(final(self)@.m) || final(self)@.phase == Phase::Sweep || (final(self)@.phase == Phase::Mark && !gray_remaining_spec(final(self)@))'),
+        ('asleep_no_progress', ['C09', 'C03'], '(run_until == RunUntil::PayDebt && !debt_pos(old(self)@.m)) ==> same(old(self)@, final(self)@)'),
+        # C09 stop-the-world sentence: all work factors zero and positive debt => does not return until Sleeping again
+        ('stop_the_world', ['C09'], '(run_until == RunUntil::PayDebt && stop_rank(stop) >= 2 && zero_work_factors(old(self)@.m.fl) && debt_pos(old(self)@.m)) ==> final(self)@.phase == Phase::Sleep'),
+    ],
+    loops={0: '            invariant_except_break\n                ' + _DC_INV + '\n            ensures\n                ' + _DC_LOOP_ENS},
+    body_serves=['C08', 'C09', 'C01'],
+)
+
+# ------------------------------------------------------------------ impl Drop for Context (rule X-dropall)
+V['context.drop'] = dict(
+    ghost_param='Ghost(l): Ghost<Seq<GcPtr>>',      # ghost prologue: the list witness, chosen from Inv by the (ghost) caller
+    requires=['drop_pre(old(self)@, l)'],
+    ensures=[
+        ('all_released', ['C04', 'C11'], 'final(self)@.objs.dom() =~= Set::<GcPtr>::empty()'),
+        ('count_zero', ['C04', 'C10'], 'final(self)@.m.total == 0'),
+        ('each_freed_and_destructed', ['C04', 'C11'], 'forall|i: int| 0 <= i < l.len() ==> final(self)@.freed.contains(#[trigger] l[i]) && final(self)@.dropped.contains(l[i])'),
+        ('only_own_objects', ['C04', 'C20'], 'forall|p: GcPtr| final(self)@.freed.contains(p) ==> old(self)@.freed.contains(p) || l.contains(p)'),
+    ],
+    loops={0: '''        invariant
+            wf_from(self@.objs, self@.dropped, l, pos(l, cursor)),
+            0 <= pos(l, cursor) <= l.len(),
+            cursor == at(l, pos(l, cursor)),
+            self@.m.total == l.len() - pos(l, cursor),
+            forall|i: int| 0 <= i < pos(l, cursor) ==> self@.freed.contains(#[trigger] l[i]) && self@.dropped.contains(l[i]),
+            forall|p: GcPtr| self@.freed.contains(p) ==> old(self)@.freed.contains(p) || l.contains(p),
+        ensures cursor is None
+        decreases l.len() - pos(l, cursor)'''},
+    body_serves=['C04', 'C10'],
+)
